@@ -1,7 +1,6 @@
 (* Concrete instances showing that the hypotheses of the C18 theorems are satisfiable by non-trivial
    states (three Dewar boards, one of them re-addressed) and what the model computes on them. *)
-From DS Require Import Base.Prelude Gen.RcvTables Model.RcvModel Proofs.RcvAssoc Proofs.RcvProofs
-  Proofs.RcvBoards Proofs.RcvFraming.
+From DS Require Import Base.Prelude Gen.RcvTables Model.RcvModel Proofs.RcvAssoc Proofs.RcvProofs Proofs.RcvBoards Proofs.RcvFraming.
 
 Definition xclk (n : nat) : Z := 1000 + Z.of_nat n.
 Definition xmkdate (_ : list Z) : option Z := Some 500.
